@@ -151,6 +151,22 @@ def ldata_writer(chk: Check, repo: Repo) -> None:
                 return v
         return UNKNOWN
 
+    rets0 = [n for n in walk_local(fi.node) if isinstance(n, ast.Return)]
+    if len(rets0) != 1:
+        raise AnalysisError("CEMILData.to_knx: expected one return")
+    ret_parts: list[ast.AST] = []
+
+    def flat0(e: ast.AST) -> None:
+        if isinstance(e, ast.BinOp) and isinstance(e.op, ast.Add):
+            flat0(e.left); flat0(e.right)
+        else:
+            ret_parts.append(e)
+    flat0(rets0[0].value)
+
+    def or_terms(e: ast.AST) -> list[ast.AST]:
+        if isinstance(e, ast.BinOp) and isinstance(e.op, ast.BitOr):
+            return or_terms(e.left) + or_terms(e.right)
+        return [e]
     for control in (False, True):
         for payload in (None, "apci"):
             for n in ((0, 1, 15, 16, 254, 255) if (not control and payload) else (0,)):
@@ -167,8 +183,22 @@ def ldata_writer(chk: Check, repo: Repo) -> None:
                 paths = Explorer(cfg, repo, am.step).run(cfg.entry, [], env)
                 got = set()
                 for p in paths:
-                    ft = p.env.get("frame_type")
-                    got.add((p.end_kind if p.end_kind != "raise" else f"raise {p.env.get('#raised')}", ft.name if isinstance(ft, EnumMember) else None, p.env.get("npdu_len") if p.end_kind == "exit" else None))
+                    ft = nl = None
+                    if p.end_kind == "exit":
+                        # what the frame carries is read off the returned concatenation (not off local names)
+                        for part in ret_parts:
+                            if isinstance(part, ast.Call) and isinstance(part.func, ast.Attribute) and part.func.attr == "to_bytes" and part.args:
+                                width = repo.fold(part.args[0], fi.module, fi.cls)
+                                recv = part.func.value
+                                if width == 2:
+                                    for term in or_terms(recv):
+                                        if isinstance(term, ast.Call) and isinstance(term.func, ast.Attribute) and term.func.attr == "to_knx":
+                                            v = am.ev(term.func.value, p.env, {})
+                                            if isinstance(v, EnumMember) and v.enum.endswith("CEMIFrameType"):
+                                                ft = v
+                                elif width == 1:
+                                    nl = am.ev(recv, p.env, {})
+                    got.add((p.end_kind if p.end_kind != "raise" else f"raise {p.env.get('#raised')}", ft.name if isinstance(ft, EnumMember) else None, nl if p.end_kind == "exit" else None))
                 if control:
                     want = {("exit", "STANDARD", 0)}
                 elif not payload:
@@ -180,7 +210,8 @@ def ldata_writer(chk: Check, repo: Repo) -> None:
                 chk.ob("frame-type-cell", fi.site(), got == want, f"control={control} payload={'present' if payload else 'None'} npdu_len={n}: code {sorted(map(str, got))}; reference {sorted(map(str, want))}", key=f"ft|{control}|{payload}|{n}" + ("" if got == want else f"|{sorted(map(str, got))}"))
     # TPCI merge: unconditional inside the data branch
     mf = cfg.must_facts()
-    merges = [n for n in cfg.nodes if isinstance(n.ast, ast.AugAssign) and isinstance(n.ast.op, ast.BitOr) and ast.unparse(n.ast.target) == "tpdu[0]" and ast.unparse(n.ast.value) == "self.tpci.to_knx()"]
+    tp_name = ret_parts[-1].id if isinstance(ret_parts[-1], ast.Name) else "?"
+    merges = [n for n in cfg.nodes if isinstance(n.ast, ast.AugAssign) and isinstance(n.ast.op, ast.BitOr) and ast.unparse(n.ast.target) == f"{tp_name}[0]" and ast.unparse(n.ast.value) == "self.tpci.to_knx()"]
     ok = len(merges) == 1
     extra = []
     if ok:
@@ -191,26 +222,23 @@ def ldata_writer(chk: Check, repo: Repo) -> None:
                 continue
             extra.append((t, v))
         ok = not extra
-    chk.ob("tpci-merged-unconditionally", fi.site(), ok, f"`tpdu[0] |= self.tpci.to_knx()` executes for every data TPDU (guards on the path besides data/payload tests: {extra})", key="tpci-merge")
-    ctrl = [n for n in cfg.nodes if isinstance(n.ast, ast.Assign) and ast.unparse(n.ast.targets[0]) == "tpdu" and ast.unparse(n.ast.value) == "self.tpci.to_knx().to_bytes(1, 'big')"]
+        pay = [n for n in cfg.nodes if isinstance(n.ast, ast.Assign) and ast.unparse(n.ast.targets[0]) == tp_name and ast.unparse(n.ast.value) == "self.payload.to_knx()"]
+        ok = ok and len(pay) == 1 and cfg.dominates(pay[0].id, merges[0].id)
+    chk.ob("tpci-merged-unconditionally", fi.site(), ok, f"the data TPDU is self.payload.to_knx() with `[0] |= self.tpci.to_knx()` executed for every data TPDU (guards on the path besides data/payload tests: {extra})", key="tpci-merge")
+    ctrl = [n for n in cfg.nodes if isinstance(n.ast, ast.Assign) and ast.unparse(n.ast.targets[0]) == tp_name and ast.unparse(n.ast.value) == "self.tpci.to_knx().to_bytes(1, 'big')"]
     chk.ob("control-tpdu-is-tpci-octet", fi.site(), len(ctrl) == 1 and ("self.tpci.control", True) in mf[ctrl[0].id], "a control TPDU is exactly the TPCI octet", key="control-tpdu")
-    # layout of the returned concatenation
-    rets = [n for n in walk_local(fi.node) if isinstance(n, ast.Return)]
-    parts = []
-    def flat(e):
-        if isinstance(e, ast.BinOp) and isinstance(e.op, ast.Add):
-            flat(e.left); flat(e.right)
-        else:
-            parts.append(ast.unparse(e))
-    if len(rets) == 1:
-        flat(rets[0].value)
-    want_parts = ["(self.flags.to_knx() | frame_type.to_knx() | self.address_type.to_knx()).to_bytes(2, 'big')", "self.src_addr.to_knx()", "self.dst_addr.to_knx()", "npdu_len.to_bytes(1, 'big')", "tpdu"]
-    def norm_or(t):  # order of the OR-ed terms is irrelevant
-        if t.startswith("(") and ".to_bytes(2, 'big')" in t:
-            inner = t[1:t.index(").to_bytes")]
-            return "(" + " | ".join(sorted(x.strip() for x in inner.split("|"))) + ").to_bytes(2, 'big')"
-        return t
-    chk.ob("writer-layout", fi.site(), [norm_or(x) for x in parts] == [norm_or(x) for x in want_parts], f"to_knx concatenates {parts}", key="writer-layout")
+    # layout of the returned concatenation: 2 control octets (flags | frame type | address type), source, destination, length octet, TPDU
+    layout_ok = len(ret_parts) == 5 and isinstance(ret_parts[-1], ast.Name)
+    if layout_ok:
+        c0, c1, c2, c3, _ = ret_parts
+        layout_ok = isinstance(c0, ast.Call) and isinstance(c0.func, ast.Attribute) and c0.func.attr == "to_bytes" and [repo.fold(a, fi.module, fi.cls) for a in c0.args] == [2, "big"]
+        if layout_ok:
+            terms = sorted(ast.unparse(t) for t in or_terms(c0.func.value))
+            ft_terms = [t for t in or_terms(c0.func.value) if isinstance(t, ast.Call) and isinstance(t.func, ast.Attribute) and t.func.attr == "to_knx" and isinstance(t.func.value, ast.Name)]
+            layout_ok = len(terms) == 3 and "self.flags.to_knx()" in terms and "self.address_type.to_knx()" in terms and len(ft_terms) == 1
+        layout_ok = layout_ok and ast.unparse(c1) == "self.src_addr.to_knx()" and ast.unparse(c2) == "self.dst_addr.to_knx()"
+        layout_ok = layout_ok and isinstance(c3, ast.Call) and isinstance(c3.func, ast.Attribute) and c3.func.attr == "to_bytes" and [repo.fold(a, fi.module, fi.cls) for a in c3.args] == [1, "big"] and isinstance(c3.func.value, ast.Name)
+    chk.ob("writer-layout", fi.site(), layout_ok, f"to_knx concatenates {[ast.unparse(x)[:70] for x in ret_parts]} (required: control field = flags | frame type | address type in 2 octets, source, destination, NPDU length octet, TPDU)", key="writer-layout")
     # address type property
     at = repo.func(CF, "CEMILData.address_type")
     chk.unit(at)
@@ -227,33 +255,41 @@ def ldata_reader(chk: Check, repo: Repo) -> None:
     chk.unit(fi)
     raw = fi.node.args.args[1].arg
     src = ast.unparse(fi.node)
-    from ..shape import single_assignments
-    defs = {k: ast.unparse(v) for k, v in single_assignments(fi.node).items()}
+    from ..astx import inline_locals
+    # what each field of the returned frame is, as an expression over `raw` only (locals inlined: names do not matter)
+    ctor = [n.value for n in walk_local(fi.node) if isinstance(n, ast.Return) and isinstance(n.value, ast.Call) and call_name(n.value) in ("cls", "CEMILData")]
+    chk.floor("CEMILData.from_knx returns", len(ctor), 2)
+    ctl = f"int.from_bytes({raw}[0:2], 'big')"
+    grp = f"CEMIAddressType.from_knx({ctl}) is CEMIAddressType.GROUP"
+    dst = f"GroupAddress.from_knx({raw}[4:6]) if {grp} else IndividualAddress.from_knx({raw}[4:6])"
+    apdu = f"bytes([{raw}[7:][0] & 3]) + {raw}[7:][1:]"
     want = {
+        "flags": f"CEMIFlags.from_knx({ctl})",
         "src_addr": f"IndividualAddress.from_knx({raw}[2:4])",
-        "_control_field": f"int.from_bytes({raw}[0:2], 'big')",
-        "_npdu_len": f"{raw}[6]",
-        "_tpdu": f"{raw}[7:]",
-        "_apdu": "bytes([_tpdu[0] & 3]) + _tpdu[1:]",
-        "_dst_is_group_address": "CEMIAddressType.from_knx(_control_field) is CEMIAddressType.GROUP",
-        "dst_addr": f"GroupAddress.from_knx({raw}[4:6]) if _dst_is_group_address else IndividualAddress.from_knx({raw}[4:6])",
+        "dst_addr": dst,
+        "tpci": f"TPCI.resolve(raw_tpci={raw}[7:][0], dst_is_group_address={grp}, dst_is_zero=not ({dst}).raw)",
     }
-    for k, v in want.items():
-        chk.ob("reader-layout", fi.site(), defs.get(k) == v, f"{k} = {defs.get(k)!r}; required {v!r}", key=f"reader|{k}")
+
+    def itext(e: ast.AST) -> str:
+        return ast.unparse(inline_locals(fi.node, e, depth=8))
+    for c in ctor:
+        kw = {k.arg: k.value for k in c.keywords}
+        kind = "control" if isinstance(kw.get("payload"), ast.Constant) else "data"
+        for k, v in want.items():
+            got = itext(kw[k]) if k in kw else None
+            chk.ob("reader-layout", fi.site(c), got == v, f"{kind} frame: {k} = {got!r}; required {v!r}", key=f"reader|{kind}|{k}")
+        if kind == "data":
+            got = itext(kw["payload"]) if "payload" in kw else None
+            chk.ob("reader-apdu", fi.site(c), got == f"APCI.from_knx({apdu})", f"payload = {got!r}: the APDU handed to the application layer is the TPDU with the TPCI bits cleared", key="reader-apdu")
     cfg = CFG(fi.node)
     mf = cfg.must_facts()
     rets = [n for n in cfg.nodes if isinstance(n.ast, ast.Return)]
-    chk.floor("CEMILData.from_knx returns", len(rets), 2)
     for r in rets:
-        facts = set(mf[r.id])
-        len_ok = ("len(_apdu) != _npdu_len + 1", False) in facts
-        eff_ok = ("flags.frame_format is not CEMIFrameFormat.STANDARD", False) in facts
-        chk.ob("reader-gates", fi.site(r.ast), len_ok and eff_ok, f"a frame is returned only when the length octet matches ({len_ok}) and the extended frame format is STANDARD ({eff_ok})", key=f"reader-gates|{'control' if 'payload=None' in ast.unparse(r.ast) else 'data'}")
-    tp = [c for c in calls(fi.node) if call_name(c) == "TPCI.resolve"]
-    kw = {k.arg: ast.unparse(k.value) for c in tp for k in c.keywords}
-    chk.ob("reader-tpci", fi.site(), len(tp) == 1 and kw == {"raw_tpci": "_tpdu[0]", "dst_is_group_address": "_dst_is_group_address", "dst_is_zero": "not dst_addr.raw"}, f"TPCI.resolve({kw})", key="reader-tpci")
-    ap = [c for c in calls(fi.node) if call_name(c) == "APCI.from_knx"]
-    chk.ob("reader-apdu", fi.site(), len(ap) == 1 and ast.unparse(ap[0].args[0]) == "_apdu", "the APDU handed to the application layer is the TPDU with the TPCI bits cleared", key="reader-apdu")
+        facts = {(itext(ast.parse(t, mode="eval").body), v) for t, v in mf[r.id]}
+        len_ok = (f"len({apdu}) != {raw}[6] + 1", False) in facts
+        eff_ok = (f"CEMIFlags.from_knx({ctl}).frame_format is not CEMIFrameFormat.STANDARD", False) in facts
+        is_ctrl = isinstance(r.ast.value, ast.Call) and any(k.arg == "payload" and isinstance(k.value, ast.Constant) for k in r.ast.value.keywords)
+        chk.ob("reader-gates", fi.site(r.ast), len_ok and eff_ok, f"a frame is returned only when the length octet matches ({len_ok}) and the extended frame format is STANDARD ({eff_ok})", key=f"reader-gates|{'control' if is_ctrl else 'data'}")
 
 
 def run(chk: Check, repo: Repo) -> None:
